@@ -436,9 +436,11 @@ pub fn run_c12(case: &C12Case, strategy: Option<Strategy>) -> C12Trace {
 }
 
 pub fn check_c12(case: &C12Case, t: &C12Trace) -> Option<Discrepancy> {
+    // "the second request for a single-use value panics instead of producing a value" is also C02's statement
+    let single = !case.repeatable();
     let d = |at: &str, expected: String, observed: String| {
         Some(Discrepancy {
-            props: vec!["C12"],
+            props: if single && (at == "request" || at == "deliveries") { vec!["C12", "C02"] } else { vec!["C12"] },
             at: at.into(),
             expected,
             observed,
